@@ -31,8 +31,8 @@ from ..engine.report import AnalysisError, Run
 from ..engine.resolver import ClassInfo, FuncInfo, Program, body_walk
 from ..engine.normalize import positional
 from ..engine.util import canon, method_call, u
-from ._c06_util import Flow, cmp_eval, indent_of, lifted, names_eq, pruned, seg, spliced, src_patch, stmt_patch
-from .c13 import _self_fields, step_classes
+from ._c06_util import Flow, HelperCalls, cmp_eval, indent_of, lifted, names_eq, pruned, seg, spliced, src_patch, stmt_patch
+from .c13 import _self_fields, step_classes, step_interp
 
 ENGINE = "timeseries.formula_engine._formula_engine"
 STEPS = "timeseries.formula_engine._formula_steps"
@@ -461,9 +461,9 @@ def check_step(run: Run, prog: Program) -> None:
         key = repr_const(cls)
         if key not in ("+", "-", "*", "/", "max", "min", "consumption", "production"):
             continue
-        fn = spliced(prog, cls.methods["apply"])
+        fn = cls.methods["apply"]
         n += 1
-        interp = NanInterp(_self_fields)
+        interp = step_interp(prog, fn, _self_fields)
         param = fn.params[1]
         stacks: list[list[Any]] = []
         ops: list[tuple[F, F]] = []
@@ -531,7 +531,7 @@ class DequeModel(list):
     pass
 
 
-class HOInterp(Interp):
+class HOInterp(HelperCalls, Interp):
     """Interprets _push / consumption / production on a token deque with abstract operands."""
 
     def __init__(self, prog: Program, module: Any) -> None:
@@ -597,7 +597,7 @@ class HOInterp(Interp):
 
 
 def check_paren(run: Run, prog: Program) -> None:
-    push = spliced(prog, prog.func(f"{ENGINE}:_BaseHOFormulaBuilder._push"))
+    push = prog.func(f"{ENGINE}:_BaseHOFormulaBuilder._push")
     run.analysed(push.qual)
     mod = prog.module(ENGINE)
     OP = lambda s: ("TT.OPER", s)  # noqa: E731
@@ -624,7 +624,7 @@ def check_paren(run: Run, prog: Program) -> None:
             b = Obj("Builder", kinds={"_BaseHOFormulaBuilder"}, _steps=DequeModel(toks))
             scenarios.append((f"builder#{i}", b, [OP("(")] + toks + [OP(")")]))
         for name, other, want_rhs in scenarios:
-            it = HOInterp(prog, mod)
+            it = HOInterp(prog, mod).bind_helpers(prog, push)
             selfs: list[Obj] = []
 
             def make_args(other=other, oper=oper) -> dict[str, Any]:
@@ -644,9 +644,9 @@ def check_paren(run: Run, prog: Program) -> None:
                           "otherwise the flattened token stream regroups under operator precedence",
                           node=push.node, file=push.file, instance=f"_push('{oper}', {name})")
     for fname in ("consumption", "production"):
-        fn = spliced(prog, prog.func(f"{ENGINE}:_BaseHOFormulaBuilder.{fname}"))
+        fn = prog.func(f"{ENGINE}:_BaseHOFormulaBuilder.{fname}")
         run.analysed(fn.qual)
-        it = HOInterp(prog, mod)
+        it = HOInterp(prog, mod).bind_helpers(prog, fn)
         selfs2: list[Obj] = []
 
         def mk() -> dict[str, Any]:
